@@ -366,6 +366,10 @@ def run(ck):
             # a local computed as the smaller of the two: `(size > max) ? max : size`, `(size < max) ? size : max`, std::min(size, max)
             dv = [dd for dd in rv.events("decl") if dd.get("var") == av]
             t_ = _re.sub(r"\s+", " ", ((dv[0].get("init") or {}).get("t") or "")) if dv else ""
+            # a bool local naming the comparison is read as the comparison
+            for bd in rv.events("decl"):
+                if bd.get("var") and (bd.get("type") or "").replace("const ", "").strip() == "bool" and _re.search(r"\b%s\b" % _re.escape(bd["var"]), t_):
+                    t_ = _re.sub(r"\b%s\b" % _re.escape(bd["var"]), "(" + _re.sub(r"\s+", " ", (bd.get("init") or {}).get("t") or "").strip("() ") + ")", t_)
             P_ = _re.escape(pname)
             pats = [r"^\(?\s*%s\s*>=?\s*%s\s*\)?\s*\?\s*%s\s*:\s*%s$" % (P_, M, M, P_), r"^\(?\s*%s\s*<=?\s*%s\s*\)?\s*\?\s*%s\s*:\s*%s$" % (M, P_, M, P_),
                     r"^\(?\s*%s\s*<=?\s*%s\s*\)?\s*\?\s*%s\s*:\s*%s$" % (P_, M, P_, M), r"^\(?\s*%s\s*>=?\s*%s\s*\)?\s*\?\s*%s\s*:\s*%s$" % (M, P_, P_, M),
